@@ -12,7 +12,7 @@ func init() {
 		Rule: "one state = one feasible path of the real cmd/commands + helpers code over the stubbed environment (symbolic report bytes, symbolic prior content of the output file, symbolic library-failure flag); every path is distinct (different decision vector)",
 		Harnesses: func(tier string) []HarnessSpec {
 			return []HarnessSpec{
-				{Pkg: "cmd/commands", Fn: "VerifC18Validate", Native: "VerifC18ValidateNative", Reach: []string{"lib-failed", "printed", "readonly", "wrote-file"},
+				{Pkg: "cmd/commands", Fn: "VerifC18Validate", CrossCheck: true, Native: "VerifC18ValidateNative", Reach: []string{"lib-failed", "printed", "readonly", "wrote-file"},
 					Bounds: map[string]any{"report_len": "1..3 symbolic bytes", "prior_len": "0..5 symbolic bytes", "prior_state": "absent|present|read-only"}},
 				{Pkg: "cmd/commands", Fn: "VerifC18Generate", Reach: []string{"lib-failed", "printed"}, Bounds: map[string]any{"code_len": "1..3 symbolic bytes"}},
 				{Pkg: "cmd/commands", Fn: "VerifC18Normalize", Reach: []string{"lib-failed", "printed"}, Bounds: map[string]any{"text_len": "1..3 symbolic bytes"}},
@@ -49,7 +49,8 @@ func init() {
 		Harnesses: func(tier string) []HarnessSpec {
 			return []HarnessSpec{
 				{Pkg: "internal/validator", Fn: "VerifC09Equiv", Reach: []string{"compile-failed", "validated-both"}, Bounds: map[string]any{"runs": 2}},
-				{Pkg: "internal/validator", Fn: "VerifC09History", Native: "VerifC09HistoryNative", Reach: []string{"validated-3"}, Bounds: map[string]any{"history_length": 3}},
+				{Pkg: "internal/validator", Fn: "VerifC09History", CrossCheck: true, Native: "VerifC09HistoryNative", Reach: []string{"validated-3"}, Bounds: map[string]any{"history_length": 3}},
+				{Pkg: "internal/validator", Fn: "VerifC09IndexFrame", Native: "VerifC09IndexFrameNative", Reach: []string{"indexed"}, Bounds: map[string]any{"graph_shapes": "the catalogue of C17 (type forms x lexical / source-information layouts)"}},
 			}
 		},
 		Assumptions: append([]string{"OPA compile/eval are functions of (module text modulo renumbering of generated identifiers, input); a PreparedEvalQuery is immutable under Eval (dependency contract)", "histories of length 3; call 3 repeats call 1's stub outcomes"}, stubAssume...),
@@ -57,10 +58,10 @@ func init() {
 	})
 	reg(&PropertySpec{
 		ID: "C11", Level: "model_checking",
-		Rule: "one state = one feasible path for one entry point x one profile text (valid / YAML error / structure error) x one assignment of the symbolic stage-fault flags; the channel is a buffered Go channel executed natively by the interpreter",
+		Rule: "one state = one feasible path for one entry point x one profile text (valid / YAML error / structure error / empty document / unknown prefix) x one assignment of the symbolic stage-fault flags; the channel is a buffered Go channel executed natively by the interpreter",
 		Harnesses: func(tier string) []HarnessSpec {
 			return []HarnessSpec{
-				{Pkg: "pkg", Fn: "VerifC11Events", Native: "VerifC11EventsNative", Reach: []string{"returned", "compile-ok", "compile-failed", "ends-in-start"}, Bounds: map[string]any{"entry_points": 5, "profiles": 3}},
+				{Pkg: "pkg", Fn: "VerifC11Events", CrossCheck: true, Native: "VerifC11EventsNative", Reach: []string{"returned", "compile-ok", "compile-failed", "ends-in-start"}, Bounds: map[string]any{"entry_points": 5, "profiles": 5}},
 				{Pkg: "pkg", Fn: "VerifC11NilChannel", Reach: []string{"returned"}},
 			}
 		},
@@ -72,7 +73,7 @@ func init() {
 		Rule: "one state = one feasible path of BuildReport/buildResults/ValidationReportNode/DialectInstance for one (nv,nw,ni) in [0,2]^3, symbolic profile name / shape names / schema IRIs (bytes), symbolic IncludeReportCreationTime, two clock values",
 		Harnesses: func(tier string) []HarnessSpec {
 			return []HarnessSpec{
-				{Pkg: "internal/validator", Fn: "VerifC03Report", Reach: []string{"encoded", "with-date", "without-date"}, Bounds: map[string]any{"results_per_level": "0..2", "string_bytes": "1..2 symbolic"}},
+				{Pkg: "internal/validator", Fn: "VerifC03Report", CrossCheck: true, Reach: []string{"encoded", "with-date", "without-date"}, Bounds: map[string]any{"results_per_level": "0..2", "string_bytes": "1..2 symbolic"}},
 				{Pkg: "internal/validator", Fn: "VerifC03EmptyResultSet", Reach: []string{"returned"}},
 			}
 		},
@@ -88,13 +89,13 @@ func init() {
 				return []HarnessSpec{
 					{Pkg: "internal/parser/path", Fn: "VerifC16Parse5", Reach: []string{"accepted", "accepted-sentence", "rejected"}, Bounds: map[string]any{"length": "1..5 ASCII bytes", "paren_depth": 3}},
 					{Pkg: "internal/parser/path", Fn: "VerifC16Variants5", Reach: []string{"sentence"}, Bounds: map[string]any{"length": "1..5 ASCII bytes"}},
-					{Pkg: "internal/parser/path", Fn: "VerifC16Edits", Reach: []string{"accepted", "rejected"}, Bounds: map[string]any{"sentences": 10, "edits": "insert/replace one symbolic byte at any position, delete one byte, append two symbolic bytes"}},
+					{Pkg: "internal/parser/path", Fn: "VerifC16Edits", CrossCheck: true, Reach: []string{"accepted", "rejected"}, Bounds: map[string]any{"sentences": 10, "edits": "insert/replace one symbolic byte at any position, delete one byte, append two symbolic bytes"}},
 				}
 			}
 			return []HarnessSpec{
 				{Pkg: "internal/parser/path", Fn: "VerifC16Parse4", Reach: []string{"accepted", "accepted-sentence", "rejected"}, Bounds: map[string]any{"length": "1..4 ASCII bytes", "paren_depth": 3}},
 				{Pkg: "internal/parser/path", Fn: "VerifC16Variants3", Reach: []string{"sentence"}, Bounds: map[string]any{"length": "1..3 ASCII bytes"}},
-				{Pkg: "internal/parser/path", Fn: "VerifC16Edits", Reach: []string{"accepted", "rejected"}, Bounds: map[string]any{"sentences": 10, "edits": "insert/replace one symbolic byte at any position, delete one byte, append two symbolic bytes"}},
+				{Pkg: "internal/parser/path", Fn: "VerifC16Edits", CrossCheck: true, Reach: []string{"accepted", "rejected"}, Bounds: map[string]any{"sentences": 10, "edits": "insert/replace one symbolic byte at any position, delete one byte, append two symbolic bytes"}},
 			}
 		},
 		Assumptions: []string{
@@ -113,15 +114,16 @@ func init() {
 			b := func(n int) map[string]any { return map[string]any{"text_length": "0.." + string(rune('0'+n)) + " symbolic bytes (printable ASCII, tab, newline)"} }
 			if tier == "thorough" {
 				return []HarnessSpec{
-					{Pkg: g, Fn: "VerifC13ProfileName4", Reach: []string{"lexed"}, Bounds: b(4)},
+					{Pkg: g, Fn: "VerifC13ProfileName4", CrossCheck: true, Reach: []string{"lexed"}, Bounds: b(4)},
 					{Pkg: g, Fn: "VerifC13ValidationName3", Reach: []string{"lexed"}, Bounds: b(3)},
-					{Pkg: g, Fn: "VerifC13Message4", Reach: []string{"lexed"}, Bounds: b(4)},
+					{Pkg: g, Fn: "VerifC13Message4", CrossCheck: true, Reach: []string{"lexed"}, Bounds: b(4)},
 					{Pkg: g, Fn: "VerifC13MessageVars2", Reach: []string{"lexed"}, Bounds: map[string]any{"text": "0..2 characters each side of the placeholder, from a 12-character representative alphabet"}},
 					{Pkg: g, Fn: "VerifC13SetValues3", Reach: []string{"lexed"}, Bounds: b(3)},
 					{Pkg: g, Fn: "VerifC13Pattern3", Reach: []string{"lexed"}, Bounds: b(3)},
 					{Pkg: g, Fn: "VerifC13ParseMessage", Reach: []string{"parsed"}},
 					{Pkg: g, Fn: "VerifC13MessageBraces4", Reach: []string{"lexed"}, Bounds: map[string]any{"text": "0..4 characters from the representative alphabet (braces included)"}},
 					{Pkg: g, Fn: "VerifC13TemplateTokens", Reach: []string{"generated"}, Bounds: map[string]any{"tokens": "$message $result $node $traceNode", "positions": "pattern, in value, message, validation name"}},
+					{Pkg: g, Fn: "VerifC13MessageTwoVars", Reach: []string{"lexed"}, Bounds: map[string]any{"placeholders": "two: the same property twice or two properties", "text": "0..1 characters before, between and after"}},
 				}
 			}
 			return []HarnessSpec{
@@ -133,6 +135,7 @@ func init() {
 				{Pkg: g, Fn: "VerifC13Pattern2", Reach: []string{"lexed"}, Bounds: b(2)},
 				{Pkg: g, Fn: "VerifC13MessageBraces3", Reach: []string{"lexed"}, Bounds: map[string]any{"text": "0..3 characters from the representative alphabet (braces included)"}},
 				{Pkg: g, Fn: "VerifC13TemplateTokens", Reach: []string{"generated"}, Bounds: map[string]any{"tokens": "$message $result $node $traceNode", "positions": "pattern, in value, message, validation name"}},
+				{Pkg: g, Fn: "VerifC13MessageTwoVars", Reach: []string{"lexed"}, Bounds: map[string]any{"placeholders": "two: the same property twice or two properties", "text": "0..1 characters before, between and after"}},
 			}
 		},
 		Assumptions: []string{
@@ -150,7 +153,7 @@ func init() {
 		Harnesses: func(tier string) []HarnessSpec {
 			return []HarnessSpec{
 				{Pkg: "internal/generator", Fn: "VerifC07VarNames", Reach: []string{"generated"}, Bounds: map[string]any{"variable_counter": "0..40 (symbolic)", "quantifier": "nested | atLeast"}},
-				{Pkg: "internal/parser/profile", Fn: "VerifC07Genvar", Reach: []string{"named"}, Bounds: map[string]any{"counter": "7 boundary bases (0, 90, 9990, 999990, 2^31-8, 2^53-8, 2^62-8) + symbolic offset 0..15"}},
+				{Pkg: "internal/parser/profile", Fn: "VerifC07Genvar", CrossCheck: true, Reach: []string{"named"}, Bounds: map[string]any{"counter": "7 boundary bases (0, 90, 9990, 999990, 2^31-8, 2^53-8, 2^62-8) + symbolic offset 0..15"}},
 				{Pkg: "internal/generator", Fn: "VerifC07GenvarNames", Reach: []string{"generated"}, Bounds: map[string]any{"counter": "as VerifC07Genvar"}},
 				{Pkg: "internal/generator", Fn: "VerifC07PathBindings", Reach: []string{"traversed"}, Bounds: map[string]any{"path_shapes": 21, "modes": "property set | node set (nested) | array (uniqueValues)"}},
 			}
@@ -186,7 +189,7 @@ func init() {
 			if tier == "thorough" {
 				return []HarnessSpec{
 					{Pkg: "internal/generator", Fn: "VerifC01Skeleton2W4", Reach: []string{"tree-built", "dispatched"}, Bounds: map[string]any{"depth": 2, "width": "2..4"}},
-					{Pkg: "internal/generator", Fn: "VerifC01SkeletonSpine4", Reach: []string{"tree-built", "dispatched"}, Bounds: map[string]any{"depth": 4, "shape": "one deep operand, others atoms"}},
+					{Pkg: "internal/generator", Fn: "VerifC01SkeletonSpine4", CrossCheck: true, Reach: []string{"tree-built", "dispatched"}, Bounds: map[string]any{"depth": 4, "shape": "one deep operand, others atoms"}},
 				}
 			}
 			return []HarnessSpec{
